@@ -352,6 +352,22 @@ Proof.
     destruct H as [H|[H1 H2]]; discriminate.
 Qed.
 
+(* every dimension of the upstream side: unless insecure_skip, a handshake completes iff the presented certificate was
+   issued by the CONFIGURED CA, is not expired, and server_name is set and matches *)
+Theorem upstream_full_table sk ca i ex n :
+  upstream_handshake sk ca i ex n = true <->
+  (sk = true \/ (issued_by_configured_ca ca i = true /\ ex = false /\ n = NameMatches)).
+Proof.
+  destruct sk, ca, i, ex, n; cbn; split; intros H; try reflexivity; try discriminate;
+    try (left; reflexivity); try (right; repeat split; reflexivity);
+    destruct H as [H|(H1 & H2 & H3)]; discriminate.
+Qed.
+
+(* in particular: with no CA configured (nil pool = the host's roots) nothing a test CA issued is accepted *)
+Theorem upstream_no_ca_accepts_nothing sk ca i ex n :
+  (ca = CaNone \/ ca = CaSdsNoValidation) -> sk = false -> upstream_handshake sk ca i ex n = false.
+Proof. intros [-> | ->] ->; destruct i, ex, n; reflexivity. Qed.
+
 (* ------------------------------------------------------------------ inspector *)
 Theorem inspector_plain insp b :
   serves_plain (conn_mode_of true true insp b) = true <-> (insp = true /\ b <> 22%N).
